@@ -134,32 +134,25 @@ Definition opt_str_eqb (a b : option str) : bool :=
   match a, b with Some x, Some y => str_eqb x y | None, None => true | _, _ => false end.
 
 (* structural equality of trees (= equality of canonical forms = equality of digests) *)
+Definition list_eqb {A} (f : A -> A -> bool) : list A -> list A -> bool :=
+  fix go (l1 l2 : list A) : bool :=
+    match l1, l2 with
+    | [], [] => true
+    | x :: r1, y :: r2 => f x y && go r1 r2
+    | _, _ => false
+    end.
 Fixpoint tree_eqb (a b : tree) {struct a} : bool :=
   match a, b with
   | El n1 i1 p1 k1, El n2 i2 p2 k2 =>
-      N.eqb n1 n2 && opt_str_eqb i1 i2 && N.eqb p1 p2 &&
-      (fix go (l1 l2 : list tree) : bool :=
-         match l1, l2 with
-         | [], [] => true
-         | x :: r1, y :: r2 => tree_eqb x y && go r1 r2
-         | _, _ => false
-         end) k1 k2
+      N.eqb n1 n2 && opt_str_eqb i1 i2 && N.eqb p1 p2 && list_eqb tree_eqb k1 k2
   | Sg r1 key1 ok1 i1 p1 k1, Sg r2 key2 ok2 i2 p2 k2 =>
       N.eqb key1 key2 && Bool.eqb ok1 ok2 && opt_str_eqb i1 i2 && N.eqb p1 p2 &&
-      (fix go (l1 l2 : list (str * tree)) : bool :=
-         match l1, l2 with
-         | [], [] => true
-         | (u1, d1) :: q1, (u2, d2) :: q2 => str_eqb u1 u2 && tree_eqb d1 d2 && go q1 q2
-         | _, _ => false
-         end) r1 r2 &&
-      (fix go (l1 l2 : list tree) : bool :=
-         match l1, l2 with
-         | [], [] => true
-         | x :: r1, y :: r2 => tree_eqb x y && go r1 r2
-         | _, _ => false
-         end) k1 k2
+      list_eqb (fun x y => match x, y with (u1, d1), (u2, d2) => str_eqb u1 u2 && tree_eqb d1 d2 end) r1 r2 &&
+      list_eqb tree_eqb k1 k2
   | _, _ => false
   end.
+Definition ref_eqb (r1 r2 : str * tree) : bool :=
+  match r1, r2 with (u1, d1), (u2, d2) => str_eqb u1 u2 && tree_eqb d1 d2 end.
 
 Definition HASH : N := 35.   (* '#' *)
 
